@@ -45,6 +45,10 @@ EXHAUSTIVE_SCOPE = {"quick": "all sequences of length <= 5 over 9 operations x {
 NONTRIVIAL_FLOOR = {"quick": 300, "thorough": 3000}
 
 
+# thorough tier: coverage-guided (atheris) drive of the same generator and oracle: kind -> (shards, cases per shard)
+FUZZ = {"sd_machine": (6, 4000), "dual_machine": (6, 4000), "queue_machine": (4, 4000)}
+
+
 def plan(tier):
     n = 800 if tier == "quick" else 16000
     return [("sd_machine", 6, n // 6), ("dual_machine", 6, n // 6), ("queue_machine", 4, n // 4),
